@@ -94,6 +94,23 @@ theorem weakDrop_invisible_to_collector (w : World) (r : WRef) :
   | dangling => exact ⟨rfl, rfl⟩
   | to x => simp only; split <;> exact ⟨rfl, rfl⟩
 
+/-- **The collector is blind to everything weak**: two worlds that agree on the strong side of every object — counts, tracing
+counters, marks, value liveness, kind, traced / untraced / cleaner fields, stored actions — and on the buffer and the
+allocation frontier give the collector the same graph and hence the same garbage set, whatever their `Weak` tables, weak
+fields, side records, `dropped` / `hasMeta` flags are. So no history of `downgrade` / `upgrade`-that-failed / `Weak::clone` /
+`Weak::drop` keeps a value alive or changes what a collection reclaims. -/
+theorem collector_blind_to_weaks (w w' : World) (hpc : w.pc = w'.pc) (hn : w.next = w'.next)
+    (hs : ∀ i, (w.heap i).rc = (w'.heap i).rc ∧ (w.heap i).tc = (w'.heap i).tc ∧ (w.heap i).mark = (w'.heap i).mark ∧
+      (w.heap i).valLive = (w'.heap i).valLive ∧ (w.heap i).kind = (w'.heap i).kind ∧ (w.heap i).slots = (w'.heap i).slots ∧
+      (w.heap i).uslots = (w'.heap i).uslots ∧ (w.heap i).cmap = (w'.heap i).cmap ∧ (w.heap i).aslots = (w'.heap i).aslots) :
+    toT1 w = toT1 w' ∧
+      (T1.tracePhases w.next (toT1 w) w.pc).nonroot = (T1.tracePhases w'.next (toT1 w') w'.pc).nonroot := by
+  have e : toT1 w = toT1 w' := by
+    funext i
+    obtain ⟨h1, h2, h3, h4, h5, h6, h7, h8, h9⟩ := hs i
+    simp only [toT1, h1, h2, h3, h4, h5, h6, h7, h8, h9]
+  exact ⟨e, by rw [e, hpc, hn]⟩
+
 /-! ### Over histories (no panic unwound so far) -/
 
 /-- **`upgrade` never hands out a destroyed, half-destroyed or half-built value**: in every world of every panic-free
